@@ -1196,16 +1196,21 @@ def joinComma (l : List Str) : Str := joinWith [','] l
 def outEsc (value : Str) : Bool := value.contains '\x1b'
 def outVals (value : Str) : List Str := if outEsc value then splitOn '\x1b' value else splitOn ',' value
 
-/-- `targ, inp, param, delay, times = vals`, with the "too many commas" special case. -/
+/-- `targ, inp, param, delay, times = vals`; on failure, with commas and more than five parts,
+`targ, inp, *param_lst, delay, times = vals` and the parameter parts are re-joined. -/
 def outFields (esc : Bool) (vals : List Str) : Except Err (Str × Str × Str × Str × Str) :=
-  match vals with
-  | [a, b, c, d, e] => .ok (a, b, c, d, e)
-  | a :: b :: rest =>
-    if !esc && vals.length > 5 then
-      let n := rest.length
-      .ok (a, b, joinComma (rest.take (n - 2)), (rest.drop (n - 2)).headD [], (rest.drop (n - 1)).headD [])
-    else .error .outputValue
-  | _ => .error .outputValue
+  if vals.length == 5 then
+    match vals with
+    | [a, b, c, d, e] => .ok (a, b, c, d, e)
+    | _ => .error .outputValue
+  else if !esc && vals.length > 5 then
+    match vals with
+    | a :: b :: rest =>
+      match rest.reverse with
+      | t :: d :: psr => .ok (a, b, joinComma psr.reverse, d, t)
+      | _ => .error .outputValue
+    | _ => .error .outputValue
+  else .error .outputValue
 
 def outBuild (name : Str) (esc : Bool) (f : Str × Str × Str × Str × Str) : Except Err Out :=
   match parseName name with
